@@ -463,3 +463,83 @@ theorem server_hello_installs (H : Crypto.Prims) (P : Cipher.Prims) (kl : List K
   exact this
 
 end TLX.Props.C01Pipeline
+
+namespace TLX.Props.C01Pipeline
+open TLX TLX.Cipher TLX.RecordLayer TLX.Spec.TlsSender TLX.Props.C01 TLX.Lemmas.Pipeline
+
+/-- C, second half (SSL 3.0 – TLS 1.2): when the suite resolves (C14), the key log has a usable line (C09) and the key
+    schedule returns a key block (C15), `generate_keys` installs a decryptor that is RELATED to the RFC sender
+    initialised with the same write keys / IVs — so `session_exact` applies from the first protected record on. The
+    class is `classOf` of what the suite table says (bulk algorithm, tag length), the negotiated version and whether
+    extension 0x0016 (encrypt-then-MAC) was in the ServerHello. -/
+theorem genKeys_installs_rel_legacy (H : Crypto.Prims) (P : Prims) (L : SealLaws P) (kl : List Keylog.Key)
+    (v : Session.Ver) (hv : v ≠ .tls13) (suite cr sr : Bytes) (exts : Session.Exts)
+    (hsl : suite.length = 2) (ps : CipherSuite.Params) (hres : CipherSuite.resolve (Bytes.beNat suite) = some ps)
+    (a : Pipeline.SuiteArgs) (hargs : Pipeline.suiteArgs ps = some a)
+    (f : Keylog.Key) (fs : List Keylog.Key)
+    (hfound : (Keylog.findSessionSecrets kl (Pipeline.natsOfBytes cr)).filter
+        (fun k => k.label == Keylog.s_CLIENT_RANDOM || k.label == Keylog.s_RSA) = f :: fs)
+    (secrets : List KeySchedule.Secret) (hsec : Pipeline.secretsOf false (f :: fs) = some secrets)
+    (k : KeySchedule.Keys6)
+    (hgen : KeySchedule.generateKeys H (Pipeline.ksVersion v) a.ks secrets cr sr = .ok (some (.legacy k)))
+    (cls : CipherClass)
+    (hcls : classOf a.bulk (Pipeline.rlVersion v) (Session.extGet exts [0x00, 0x16]).isSome a.tagLen = some cls)
+    (hmac : 0 < (KeySchedule.macSuite H a.ks.mac).outLen)
+    (hck : KeyMatOk cls k.clientKey k.clientIv) (hsk : KeyMatOk cls k.serverKey k.serverIv) :
+    ∃ d, Pipeline.genKeys H P kl (some v) suite cr sr exts 0 = .installed d ∧
+      Rel cls (KeySchedule.macSuite H a.ks.mac).outLen
+        ⟨SDir.init k.clientKey k.clientIv [] [], SDir.init k.serverKey k.serverIv [] []⟩ d := by
+  obtain ⟨hb, hver, hpar, h13⟩ := classOf_spec _ _ _ _ cls hcls
+  have hrl : Pipeline.rlVersion v ≠ .tls13 := by cases v <;> simp_all [Pipeline.rlVersion]
+  have h13' : cls.is13 = false := by rw [h13]; simpa using hrl
+  have hbl : BlockLenOk cls (Pipeline.blockBits a.bulk) := by
+    cases cls <;> try trivial
+    rename_i alg e
+    simp only [bulkOf] at hb
+    have hblk : alg.isBlock = true := hck.1
+    subst hb
+    simp only [BlockLenOk]
+    generalize a.bulk = alg at hblk ⊢
+    cases alg <;> simp_all [Pipeline.blockBits, Alg.blk, Alg.isBlock]
+  obtain ⟨d, hd, hR⟩ := init_rel_pre13 P L cls h13' (Pipeline.rlVersion v) hver _ hmac _ hbl a.tagLen _ hpar
+    k.clientKey k.serverKey k.clientIv k.serverIv hck hsk
+  rw [hb] at hd
+  refine ⟨d, ?_, hR⟩
+  have hvs : (some v = some Session.Ver.tls13) = False := by simp [hv]
+  have hvd : decide (v = Session.Ver.tls13) = false := by simp [hv]
+  simp only [Pipeline.genKeys, hsl, if_true, hres, hargs, hvs, if_false, hfound, hvd, hsec, hgen,
+    Pipeline.keysOfInstalled, hd, ne_eq, not_true_eq_false]
+
+/-- C, second half (TLS 1.3, all four traffic secrets in the key log): `generate_keys` installs a decryptor in the
+    handshake epoch, related to the RFC sender that holds the same handshake and application traffic keys / IVs — so
+    `session_exact` / `tls13_after_finished_exact` apply from the first protected record after the ServerHello on. -/
+theorem genKeys_installs_rel_13 (H : Crypto.Prims) (P : Prims) (kl : List Keylog.Key)
+    (suite cr sr : Bytes) (exts : Session.Exts)
+    (hsl : suite.length = 2) (ps : CipherSuite.Params) (hres : CipherSuite.resolve (Bytes.beNat suite) = some ps)
+    (a : Pipeline.SuiteArgs) (hargs : Pipeline.suiteArgs ps = some a)
+    (f : Keylog.Key) (fs : List Keylog.Key)
+    (hfound : Keylog.findSessionSecrets kl (Pipeline.natsOfBytes cr) = f :: fs)
+    (secrets : List KeySchedule.Secret) (hsec : Pipeline.secretsOf true (f :: fs) = some secrets)
+    (k : KeySchedule.Installed13)
+    (hgen : KeySchedule.generateKeys H .tls13 a.ks secrets cr sr = .ok (some (.tls13 k)))
+    (chk chiv cak caiv shk shiv sak saiv : Bytes)
+    (hk : k.clientHsKey = some chk ∧ k.clientHsIv = some chiv ∧ k.clientAppKey = some cak ∧ k.clientAppIv = some caiv ∧
+      k.serverHsKey = some shk ∧ k.serverHsIv = some shiv ∧ k.serverAppKey = some sak ∧ k.serverAppIv = some saiv)
+    (cls : CipherClass)
+    (hcls : classOf a.bulk .tls13 (Session.extGet exts [0x00, 0x16]).isSome a.tagLen = some cls)
+    (h1 : KeyMatOk cls chk chiv) (h2 : KeyMatOk cls cak caiv) (h3 : KeyMatOk cls shk shiv) (h4 : KeyMatOk cls sak saiv) :
+    ∃ d, Pipeline.genKeys H P kl (some .tls13) suite cr sr exts 0 = .installed d ∧
+      Rel cls (KeySchedule.macSuite H a.ks.mac).outLen
+        ⟨SDir.init chk chiv cak caiv, SDir.init shk shiv sak saiv⟩ d := by
+  obtain ⟨hb, hver, hpar, h13⟩ := classOf_spec _ _ _ _ cls hcls
+  have h13' : cls.is13 = true := by rw [h13]; rfl
+  obtain ⟨d, hd, hR⟩ := init_rel_13 P cls h13' (KeySchedule.macSuite H a.ks.mac).outLen (Pipeline.blockBits a.bulk)
+    a.tagLen _ hpar chk chiv cak caiv shk shiv sak saiv h1 h2 h3 h4
+  rw [hb] at hd
+  refine ⟨d, ?_, hR⟩
+  obtain ⟨k1, k2, k3, k4, k5, k6, k7, k8⟩ := hk
+  simp only [Pipeline.genKeys, hsl, if_true, hres, hargs, hfound, decide_true, hsec, Pipeline.ksVersion, hgen,
+    Pipeline.keysOfInstalled, Pipeline.rlVersion, k1, k2, k3, k4, k5, k6, k7, k8, hd, ne_eq, not_true_eq_false,
+    if_false]
+
+end TLX.Props.C01Pipeline
